@@ -11,6 +11,7 @@ import sys
 import tempfile
 import time
 import hashlib
+import fcntl
 
 HERE = os.path.dirname(os.path.abspath(__file__))
 VERIF = os.path.dirname(HERE)
@@ -57,7 +58,6 @@ def main():
         args = args[2:]
     seeds = args or sorted(x for x in os.listdir(os.path.join(VERIF, "seeded")) if os.path.isdir(os.path.join(VERIF, "seeded", x)))
     mpath = os.path.join(VERIF, "seeded", "MATRIX.json")
-    mat = json.load(open(mpath)) if os.path.exists(mpath) else {}
     allprops = [json.loads(l)["id"] for l in open(os.path.join(VERIF, "properties.jsonl")) if l.strip()]
     for s in seeds:
         meta = json.load(open(os.path.join(VERIF, "seeded", s, "meta.json")))
@@ -67,9 +67,13 @@ def main():
         r["tier"] = tier
         r["repo_head"] = subprocess.check_output(["git", "-C", "/repo", "log", "-1", "--format=%h"]).decode().strip()
         r["verif_head"] = subprocess.check_output(["git", "-C", VERIF, "log", "-1", "--format=%h"]).decode().strip()
-        ent = mat.setdefault(s, {})
-        ent[tier + ("-all" if which == "all" else "")] = r
-        json.dump(mat, open(mpath, "w"), indent=1, sort_keys=True)
+        with open(mpath + ".lock", "w") as lk:          # several invocations may run side by side
+            fcntl.flock(lk, fcntl.LOCK_EX)
+            mat = json.load(open(mpath)) if os.path.exists(mpath) else {}
+            ent = mat.setdefault(s, {})
+            ent[tier + ("-all" if which == "all" else "")] = r
+            json.dump(mat, open(mpath + ".tmp", "w"), indent=1, sort_keys=True)
+            os.replace(mpath + ".tmp", mpath)
         if r.get("applied"):
             print(s, {k: ("CAUGHT(%d)" % v["violations"] if v["violations"] else "missed rc=%d" % v["exit"]) for k, v in r["checks"].items()}, flush=True)
         else:
